@@ -107,13 +107,14 @@ def r15_2(ctx):
     gm = get_grammar(ctx.env)
     cbs = transformer_callbacks(idx)
     r0 = Runner(idx)
-    for desc, cb, _ in reject_specs(r0):
-        ctx.need(cb in cbs, f"no callback {cb} for {desc}")
     n = len(reject_specs(r0))
     for k in range(n):
         r = Runner(idx)
         r.fold = False
         desc, cb, _ = reject_specs(r)[k]
+        if cb not in cbs:
+            ctx.check(f"{desc} is rejected", False, "raises", f"no callback `{cb}`: the production yields a raw Tree that nothing rejects", "rzilcompiler/Transformer/RZILTransformer.py")
+            continue
         fi, outs = r.run(cb, lambda r=r, k=k: reject_specs(r)[k][2])
         obs = sorted({("raises " + str(o.value)) if o.kind == "raise" else ("returns " + (o.value.cls if isinstance(o.value, AObj) else type(o.value).__name__)) for o in outs})
         ctx.check(f"{desc} is rejected", all(o.kind == "raise" for o in outs) and outs, "raises", "; ".join(obs), fn_where(idx, fi))
